@@ -52,41 +52,74 @@ pub struct Verdict {
     pub what: String,
 }
 
+/// State after the first `n` versions of `o` (what a reader saw when `n` was the latest).
+pub fn truncate(o: &Obs, n: u64) -> Obs {
+    match o {
+        Obs::Absent => Obs::Absent,
+        Obs::Table {
+            versions,
+            per_version,
+            raw_final,
+            ..
+        } => {
+            if n == 0 {
+                return Obs::Absent;
+            }
+            Obs::Table {
+                versions: versions.iter().copied().filter(|v| *v <= n).collect(),
+                latest_id: n,
+                opened: n,
+                per_version: per_version
+                    .iter()
+                    .filter(|(v, _)| **v <= n)
+                    .map(|(v, o)| (*v, o.clone()))
+                    .collect(),
+                raw_final: raw_final.iter().copied().filter(|v| *v <= n).collect(),
+            }
+        }
+    }
+}
+
 /// The deciding oracle, as a pure function of the observations (so that `--selftest` can feed it
-/// corrupted observations).
+/// corrupted observations). `states[j]` = what readers must see after exactly `j` commit points
+/// of the operation were applied (`states[0]` = pre-state, last = post-state; most operations make
+/// one commit, compaction may make two: ReserveFragments + Rewrite). `applied` = number of commit
+/// points the store log shows as applied; `marker_applied` = for detached commits whether the
+/// detached manifest was created (it never changes what readers of the branch see).
 pub fn judge(
-    pre: &Obs,
-    post: &Obs,
+    states: &[Obs],
     obs: &Obs,
-    commit_applied: bool,
+    applied: usize,
     res_ok: bool,
-    detached: bool,
+    detached_marker_applied: Option<bool>,
 ) -> Option<Verdict> {
-    if res_ok && !commit_applied {
+    let full = states.len() - 1;
+    let ok_without_commit = match detached_marker_applied {
+        Some(m) => res_ok && !m,
+        None => res_ok && applied < full,
+    };
+    if ok_without_commit {
         return Some(Verdict {
             sig: "ok-returned-without-commit-point".into(),
-            what: "the operation returned Ok although no create of its manifest was applied".into(),
+            what: format!(
+                "the operation returned Ok although only {applied} of its {full} manifest creates were applied"
+            ),
         });
     }
-    let (expected, other, exp_name) = if detached || !commit_applied {
-        (pre, post, "pre")
-    } else {
-        (post, pre, "post")
-    };
+    let j = applied.min(full);
+    let expected = &states[j];
     if obs == expected {
         return None;
     }
-    if obs == other && pre != post {
+    if let Some(other) = states.iter().position(|s| s == obs) {
         return Some(Verdict {
-            sig: if exp_name == "pre" {
-                "post-state-visible-without-commit-point".into()
+            sig: if other > j {
+                "later-state-visible-without-its-commit-point".into()
             } else {
-                "pre-state-visible-after-commit-point".into()
+                "earlier-state-visible-after-commit-point".into()
             },
             what: format!(
-                "a fresh reader sees the {} state but the store log says the commit point was {}",
-                if exp_name == "pre" { "post" } else { "pre" },
-                if commit_applied { "applied" } else { "not applied" }
+                "a fresh reader sees the state after {other} commit(s) of the operation but the store log shows {applied} applied commit point(s)"
             ),
         });
     }
@@ -122,7 +155,7 @@ pub fn judge(
     Some(Verdict {
         sig: format!("torn-{class}"),
         what: format!(
-            "after the crash a fresh reader sees neither the pre-state nor the post-state; vs expected ({exp_name}): {}",
+            "after the crash a fresh reader sees none of the admissible states; vs the state after {j} commit(s): {}",
             obs.diff(expected)
         ),
     })
@@ -381,8 +414,9 @@ async fn scenario(ctx: &Ctx<'_>, idx: u64) {
                     let fine = if op.is_detached() {
                         report.count("detached_commits_checked", 1);
                         obs == cur
-                    } else if new_n == prev_n + 1 {
-                        true
+                    } else if new_n > prev_n && new_n - prev_n <= op.max_commits() {
+                        report.count("history_commits_checked", new_n - prev_n);
+                        truncate(&obs, prev_n) == cur
                     } else {
                         new_n == prev_n && op.may_noop() && obs == cur
                     };
@@ -403,7 +437,7 @@ async fn scenario(ctx: &Ctx<'_>, idx: u64) {
                         return;
                     }
                     // store-log ordering: everything the new manifest references existed before it
-                    if new_n == prev_n + 1 {
+                    if new_n > prev_n && !op.is_detached() {
                         let ev = env.world.events_since(log_from);
                         let xev: Vec<ExtEvent> = env.ext.events()[ext_from..].to_vec();
                         match commit_point(handler, &ev, &xev, new_n, false) {
@@ -551,9 +585,11 @@ async fn scenario(ctx: &Ctx<'_>, idx: u64) {
         return;
     }
     let post_n = post.latest().unwrap_or(0);
-    let dry_commit = commit_point(handler, &dry_events, &dry_ext, target, detached);
+    let mut states: Vec<Obs> = vec![pre.clone()];
+    let commits: u64;
     if detached {
         report.count("detached_commits_checked", 1);
+        commits = 0;
         if post != pre {
             report.violation(
                 "detached-commit-changed-visible-state",
@@ -573,14 +609,32 @@ async fn scenario(ctx: &Ctx<'_>, idx: u64) {
         }
         report.count("noop_final_ops", 1);
         return;
-    } else if post_n != target {
+    } else if post_n < pre_n || post_n - pre_n > final_op.max_commits() {
         report.violation(
             "successful-write-did-not-make-exactly-latest-plus-one",
             &format!("{} returned Ok on latest={pre_n}; afterwards latest={post_n}", final_op.describe()),
             json!({"base": witness_base(ctx, idx, handler, &history, &final_op), "before": pre.brief(), "after": post.brief()}),
         );
         return;
+    } else {
+        commits = post_n - pre_n;
+        for j in 1..=commits {
+            states.push(truncate(&post, pre_n + j));
+        }
+        if truncate(&post, pre_n) != pre {
+            report.violation(
+                "committed-write-altered-earlier-versions",
+                &format!("after {} the versions 1..{pre_n} no longer read as before: {}", final_op.describe(), truncate(&post, pre_n).diff(&pre)),
+                json!({"base": witness_base(ctx, idx, handler, &history, &final_op), "before": pre.brief(), "after": post.brief()}),
+            );
+            return;
+        }
     }
+    let dry_commit = if detached {
+        commit_point(handler, &dry_events, &dry_ext, target, true)
+    } else {
+        commit_point(handler, &dry_events, &dry_ext, post_n, false)
+    };
     let Some((t_commit, commit_what)) = dry_commit else {
         report.violation(
             "new-version-without-logged-manifest-create",
@@ -689,16 +743,37 @@ async fn scenario(ctx: &Ctx<'_>, idx: u64) {
         let events = env_c.world.events();
         let xevents = env_c.ext.events();
         report.count("store_events_observed", events.len() as u64);
-        let commit = commit_point(handler, &events, &xevents, target, detached);
+        // which commit points of the operation were applied (must be a prefix)
+        let mut applied = 0usize;
+        let mut commit: Option<(u64, String)> = None;
+        let mut hole = false;
+        if detached {
+            commit = commit_point(handler, &events, &xevents, target, true);
+        } else {
+            for j in 1..=commits {
+                match commit_point(handler, &events, &xevents, pre_n + j, false) {
+                    Some(c) => {
+                        if applied as u64 != j - 1 {
+                            hole = true;
+                        }
+                        applied += 1;
+                        commit = Some(c);
+                    }
+                    None => {}
+                }
+            }
+        }
         let commit_applied = commit.is_some();
         let wit = |extra: serde_json::Value| {
             json!({
                 "base": witness_base(ctx, idx, handler, &history, &final_op),
                 "crash_point": label, "fault": cp.fault_name(), "crash_point_detail": format!("{cp:?}"),
-                "op_result": res_txt, "commit_point_applied": commit_applied,
+                "op_result": res_txt, "commit_points_applied": applied, "commit_points_of_op": commits,
+                "detached_manifest_applied": detached && commit_applied,
                 "writer_log": events.iter().filter(|e| e.actor == 1 && e.kind.is_mutating()).map(|e| e.brief()).collect::<Vec<_>>(),
                 "ext_log": xevents.iter().map(|e| e.brief()).collect::<Vec<_>>(),
                 "pre": pre.brief(), "post": post.brief(), "detail": extra,
+                "replay_crash": format!("--case {idx} (crash point {cp:?})"),
             })
         };
         let observed = observe(&env_c.proc(2), &env_c.world, URI).await;
@@ -721,7 +796,15 @@ async fn scenario(ctx: &Ctx<'_>, idx: u64) {
             report.count("versions_compared", per_version.len() as u64);
             report.count("rows_compared", per_version.values().map(|v| v.rows.len() as u64).sum());
         }
-        if let Some(v) = judge(&pre, &post, &obs, commit_applied, res_ok, detached) {
+        if hole {
+            report.violation(
+                &format!("later-manifest-created-without-earlier-one:{class}"),
+                "the store log shows the create of version N+2 applied without the create of N+1",
+                wit(json!({"observed": obs.brief()})),
+            );
+        }
+        let marker = if detached { Some(commit_applied) } else { None };
+        if let Some(v) = judge(&states, &obs, applied, res_ok, marker) {
             report.violation(&format!("{}:{class}", v.sig), &v.what, wit(json!({"observed": obs.brief()})));
         }
         if let Some(x) = &extra {
@@ -760,7 +843,7 @@ async fn scenario(ctx: &Ctx<'_>, idx: u64) {
             CrashPoint::Store { k, .. } => dry_events.iter().any(|e| {
                 e.actor == 1
                     && e.mut_index == Some(*k)
-                    && (final_manifest_version(BASE, e.dest()) == Some(target)
+                    && (final_manifest_version(BASE, e.dest()).map(|v| v > pre_n).unwrap_or(false)
                         || matches!(vers_file(BASE, e.dest()), Some(VersFile::Detached(_))))
             }),
             CrashPoint::Ext { op, .. } => *op == ExtOp::PutIfNotExists,
@@ -777,7 +860,11 @@ async fn scenario(ctx: &Ctx<'_>, idx: u64) {
         outcomes.push(format!(
             "{label} [{}] -> {} ({})",
             cp.fault_name(),
-            if commit_applied { "post" } else { "pre" },
+            if detached {
+                "pre (detached)".to_string()
+            } else {
+                format!("state after {applied}/{commits} commit(s)")
+            },
             if res_ok { "op Ok" } else { "op Err" }
         ));
         report.case(if nontrivial {
@@ -818,11 +905,15 @@ fn selftest(args: &Args) -> i32 {
         ops::apply(&app, &w.actor, URI).await.expect("append");
         let (post, _) = observe(&env.proc(4), &env.world, URI).await.expect("observe");
         let mut fails = vec![];
+        let st = vec![pre.clone(), post.clone()];
+        if truncate(&post, 1) != pre {
+            fails.push("truncate(post) != pre on a clean history");
+        }
         // sound on clean inputs
-        if judge(&pre, &post, &pre, false, false, false).is_some() {
+        if judge(&st, &pre, 0, false, None).is_some() {
             fails.push("clean pre flagged");
         }
-        if judge(&pre, &post, &post, true, true, false).is_some() {
+        if judge(&st, &post, 1, true, None).is_some() {
             fails.push("clean post flagged");
         }
         // 1. drop a row from the observed latest version
@@ -832,7 +923,7 @@ fn selftest(args: &Args) -> i32 {
             let k = *v.rows.keys().next().unwrap();
             v.rows.remove(&k);
         }
-        if judge(&pre, &post, &o, true, false, false).is_none() {
+        if judge(&st, &o, 1, false, None).is_none() {
             fails.push("dropped row not flagged");
         }
         // 2. partial visibility: version N+1 listed but latest still N
@@ -840,19 +931,19 @@ fn selftest(args: &Args) -> i32 {
         if let Obs::Table { latest_id, .. } = &mut o {
             *latest_id -= 1;
         }
-        if judge(&pre, &post, &o, true, false, false).is_none() {
+        if judge(&st, &o, 1, false, None).is_none() {
             fails.push("stale latest not flagged");
         }
         // 3. post state visible although the commit point was not applied
-        if judge(&pre, &post, &post, false, false, false).is_none() {
+        if judge(&st, &post, 0, false, None).is_none() {
             fails.push("post without commit not flagged");
         }
         // 4. pre state after the commit point
-        if judge(&pre, &post, &pre, true, false, false).is_none() {
+        if judge(&st, &pre, 1, false, None).is_none() {
             fails.push("pre after commit not flagged");
         }
         // 5. Ok without commit
-        if judge(&pre, &post, &pre, false, true, false).is_none() {
+        if judge(&st, &pre, 0, true, None).is_none() {
             fails.push("ok without commit not flagged");
         }
         // 6. a hole in the version list
@@ -870,7 +961,7 @@ fn selftest(args: &Args) -> i32 {
             let k = *v.rows.keys().next().unwrap();
             v.rows.get_mut(&k).unwrap()[0] = vmon::table::Cell::Int(-77);
         }
-        if judge(&pre, &post, &o, false, false, false).is_none() {
+        if judge(&st, &o, 0, false, None).is_none() {
             fails.push("changed cell not flagged");
         }
         // 8. referenced object missing
